@@ -69,3 +69,14 @@ PROPS['C16'] = {
                 'calls.polyseed_encode.OK': 60, 'calls.polyseed_free.OK': 6, 'calls.polyseed_keygen.OK': 6},
     'assumptions': ['register contents and memory owned by the injected dependencies are out of scope', 'observed for gcc 12 -O0/-O1/-O2/-O3/-Os and clang 14 -O2 on x86-64 only'],
 }
+
+PROPS['C19'] = {
+    'level': 'exploration',
+    'runs': [
+        {'name': 'schar', 'flavour': 'schar', 'driver': 'drv_c19', 'args': ['--tag', 'signed-char'], 'shards': 8},
+        {'name': 'uchar', 'flavour': 'uchar', 'driver': 'drv_c19', 'args': ['--tag', 'unsigned-char'], 'shards': 8},
+    ],
+    'transcript_pairs': [('schar', 'uchar')],
+    'require': {'transcript.cases_compared': 10000, 'allwords.decoded': 40960, 'forms.ideographic_space': 1000, 'ops.crypt.spanish': 20, 'ops.crypt.hangul': 20},
+    'assumptions': ['char signedness is varied with -fsigned-char / -funsigned-char on x86-64 gcc; other ABI differences of ARM/PowerPC targets are not reproduced'],
+}
